@@ -200,3 +200,25 @@ Proof.
     destruct (nth_error (s_proms s) id) as [pr|] eqn:E; simpl in H; [|discriminate].
     destruct (Hp id pr E) as (pr' & E' & Ok'). rewrite E'. simpl. congruence.
 Qed.
+
+Section Mono.
+  Variables (G : ghe) (s : st) (G' : ghe) (s' : st).
+  Hypothesis Hg : gle G G'.
+  Hypothesis Hs : sle s s'.
+  Lemma LiveI_mono v p c g : LiveI G s v p c g -> LiveI G' s' v p c g.
+  Proof. apply (Live_mono_all G s G' s' Hg Hs). Qed.
+  Lemma LiveS_mono f p c g : LiveS G s f p c g -> LiveS G' s' f p c g.
+  Proof. apply (Live_mono_all G s G' s' Hg Hs). Qed.
+  Lemma LiveSel_mono m p f fs ix g : LiveSel G s m p f fs ix g -> LiveSel G' s' m p f fs ix g.
+  Proof. apply (Live_mono_all G s G' s' Hg Hs). Qed.
+  Lemma LiveItems_mono inn p l i fs res g : LiveItems G s inn p l i fs res g -> LiveItems G' s' inn p l i fs res g.
+  Proof. apply (Live_mono_all G s G' s' Hg Hs). Qed.
+  Lemma LiveCI_mono inn x q c g : LiveCI G s inn x q c g -> LiveCI G' s' inn x q c g.
+  Proof. apply (Live_mono_all G s G' s' Hg Hs). Qed.
+  Lemma LiveCF_mono fp q c g : LiveCF G s fp q c g -> LiveCF G' s' fp q c g.
+  Proof. apply (Live_mono_all G s G' s' Hg Hs). Qed.
+  Lemma LiveW_mono nn v p c g : LiveW G s nn v p c g -> LiveW G' s' nn v p c g.
+  Proof. apply (Live_mono_all G s G' s' Hg Hs). Qed.
+  Lemma LiveF_mono fp p c g : LiveF G s fp p c g -> LiveF G' s' fp p c g.
+  Proof. apply (Live_mono_all G s G' s' Hg Hs). Qed.
+End Mono.
